@@ -8,7 +8,6 @@ namespace PyCraft.Life
 set_option linter.unusedSimpArgs false
 
 def Site.rank : Site → Nat
-  | .cleanup => 4
   | .handler => 7
   | .listen => 13
   | .react => 15
@@ -21,6 +20,7 @@ def NPc.rank : NPc → Nat
   | .epilogue => 3
   | .callRel site _ => site.rank
   | .call site => site.rank + 1
+  | .hRel => 4
   | .hChk => 6
   | .hRun => 9
   | .exc => 10
@@ -175,7 +175,8 @@ theorem rank_run (env : List Beh) (sched : List Tid) (i : Nat) :
         have hb' : (s'.net i).pc ≠ .unborn := by
           intro hc; rw [hc] at hr
           have := rank_le (s.net i).pc
-          simp [NPc.rank] at hr; omega
+          have h23 : NPc.unborn.rank = 23 := rfl
+          omega
         obtain ⟨a, b, c⟩ := ih s' h' hb' hi'
         refine ⟨a, b, ?_⟩
         simp only [if_true]; omega
@@ -183,5 +184,147 @@ theorem rank_run (env : List Beh) (sched : List Tid) (i : Nat) :
         obtain ⟨a, b, c⟩ := ih s' h' (by rw [hpc]; exact hb) hi'
         refine ⟨a, b, ?_⟩
         simp only [hu, if_false]; rw [hpc] at c; omega
+
+
+/-! ### Running a thread alone -/
+
+/-- `previous_thread` of an existing thread object never changes. -/
+theorem prev_stable (env : List Beh) (s s' : Sys) (t : Tid) (h : LInv s)
+    (hs : step env s t = some s') (j : Nat) (hb : (s.net j).pc ≠ .unborn) :
+    (s'.net j).prev = (s.net j).prev := by
+  have h3 := h.born j
+  step_cases hs
+  all_goals simp only [refusedSt, directSt, succSt, discSt] at *
+  all_goals grind [updN, dnet]
+
+theorem owner_own_step (env : List Beh) (s s' : Sys) (i : Nat)
+    (hs : step env s (.net i) = some s') (ho : s.owner = none ∨ s.owner = some (.net i)) :
+    s'.owner = none ∨ s'.owner = some (.net i) := by
+  step_cases hs
+  all_goals simp only [refusedSt, directSt, succSt, discSt] at *
+  all_goals grind [ownerAfterRel]
+
+theorem run_replicate_succ (env : List Beh) (s : Sys) (t : Tid) (n : Nat) :
+    run env s (List.replicate (n + 1) t) =
+      match step env s t with
+      | some s' => run env s' (List.replicate n t)
+      | none => run env s (List.replicate n t) := by
+  rw [List.replicate_succ]; rfl
+
+/-- Scheduling only an interrupted thread whose predecessor (if it waits for one) is dead, with
+the lock free, kills it within `rank` steps; it ends with the lock free and does not move any
+other existing thread. -/
+theorem solo (env : List Beh) (i : Nat) : ∀ n s, LInv s → (s.net i).pc ≠ .unborn →
+    (s.net i).intr = true → (s.owner = none ∨ s.owner = some (.net i)) →
+    ((s.net i).pc = .waitPrev → ∀ p, (s.net i).prev = some p → (s.net p).pc = .dead) →
+    (s.net i).pc.rank ≤ n →
+    ((run env s (List.replicate n (.net i))).net i).pc = .dead ∧
+    (run env s (List.replicate n (.net i))).owner = none ∧
+    LInv (run env s (List.replicate n (.net i))) ∧
+    ∀ j, j ≠ i → (s.net j).pc ≠ .unborn →
+      ((run env s (List.replicate n (.net i))).net j).pc = (s.net j).pc ∧
+      ((run env s (List.replicate n (.net i))).net j).prev = (s.net j).prev ∧
+      ((s.net j).intr = true → ((run env s (List.replicate n (.net i))).net j).intr = true) := by
+  intro n
+  induction n with
+  | zero =>
+    intro s h _ _ ho _ hr
+    have hd : (s.net i).pc = .dead := (rank_zero _).mp (by omega)
+    refine ⟨hd, ?_, h, fun j _ _ => ⟨rfl, rfl, id⟩⟩
+    rcases ho with ho | ho
+    · exact ho
+    · have := (h.own_iff (.net i)).mpr ho
+      simp [atRel, hd, NPc.isRel] at this
+  | succ n ih =>
+    intro s h hb hi ho hw hr
+    rw [run_replicate_succ]
+    cases hst : step env s (.net i) with
+    | none =>
+      have hd : (s.net i).pc = .dead := by
+        apply Classical.byContradiction
+        intro hd
+        rcases blocked_cases env s h i hb hd hst with ⟨t, h1, h2⟩ | ⟨h1, p, h2, -, h3, -⟩
+        · rcases ho with ho | ho
+          · rw [ho] at h1; cases h1
+          · rw [ho] at h1; cases h1; exact h2 rfl
+        · exact h3 (hw h1 p h2)
+      exact ih s h hb hi ho hw (by rw [hd]; simp [NPc.rank])
+    | some s1 =>
+      have h1 := step_inv env s s1 _ h hst
+      have hr1 := rank_own env s s1 i h hst hi
+      have hrl := rank_le (s.net i).pc
+      have hb1 : (s1.net i).pc ≠ .unborn := by
+        intro hc; rw [hc] at hr1
+        have h23 : NPc.unborn.rank = 23 := rfl
+        omega
+      have hw1 : (s1.net i).pc = .waitPrev → ∀ p, (s1.net i).prev = some p →
+          (s1.net p).pc = .dead := by
+        intro hc; rw [hc] at hr1
+        have h22 : NPc.waitPrev.rank = 22 := rfl
+        have : (s.net i).pc.rank = 23 := by omega
+        exfalso; apply hb
+        revert this
+        cases hpc : (s.net i).pc
+        case call site => cases site <;> simp [NPc.rank, Site.rank]
+        case callRel site out => cases site <;> simp [NPc.rank, Site.rank]
+        all_goals simp [NPc.rank]
+      obtain ⟨a, b, c, d⟩ := ih s1 h1 hb1 (intr_sticky env s s1 _ h hst i hb hi)
+        (owner_own_step env s s1 i hst ho) hw1 (by omega)
+      refine ⟨a, b, c, fun j hj hbj => ?_⟩
+      have e1 := pc_other env s s1 _ h hst j hbj (by simpa using fun hc => hj hc.symm)
+      have e2 := prev_stable env s s1 _ h hst j hbj
+      obtain ⟨d1, d2, d3⟩ := d j hj (by rw [e1]; exact hbj)
+      exact ⟨by rw [d1, e1], by rw [d2, e2],
+        fun hij => d3 (intr_sticky env s s1 _ h hst j hbj hij)⟩
+
+
+/-- With the lock free (or held by `i`), an interrupted thread can be driven to its death: first
+its predecessor (if it is still waiting for one), then itself. -/
+theorem can_terminate_free (env : List Beh) (s : Sys) (h : LInv s) (i : Nat)
+    (hb : (s.net i).pc ≠ .unborn) (hi : (s.net i).intr = true)
+    (ho : s.owner = none ∨ s.owner = some (.net i)) :
+    ∃ sched, sched.length ≤ 46 ∧ ((run env s sched).net i).pc = .dead := by
+  by_cases hw : (s.net i).pc = .waitPrev
+  · obtain ⟨p, hp1, hp2, hp3, hp4, -⟩ := h.prev_ok i (by rw [hw]; rfl)
+    have ho' : s.owner = none := by
+      rcases ho with ho | ho
+      · exact ho
+      · have := (h.own_iff (.net i)).mpr ho
+        simp [atRel, hw, NPc.isRel] at this
+    have hpw : (s.net p).pc ≠ .waitPrev := by
+      intro hc
+      have h1 := (h.new_iff p).mpr (by rw [hc]; rfl)
+      have h2 := (h.new_iff i).mpr (by rw [hw]; rfl)
+      rw [h1] at h2; cases h2; exact hp3 rfl
+    obtain ⟨a, b, c, d⟩ := solo env p 23 s h hp4 hp2 (Or.inl ho') (fun hc => absurd hc hpw)
+      (rank_le _)
+    obtain ⟨d1, d2, d3⟩ := d i (fun hc => hp3 hc.symm) hb
+    obtain ⟨e, -, -, -⟩ := solo env i 23 _ c (by rw [d1]; exact hb) (d3 hi) (Or.inl b)
+      (fun _ q hq => by rw [d2, hp1] at hq; cases hq; exact a) (rank_le _)
+    refine ⟨List.replicate 23 (.net p) ++ List.replicate 23 (.net i), by simp, ?_⟩
+    rw [run_append]; exact e
+  · obtain ⟨e, -, -, -⟩ := solo env i 23 s h hb hi ho (fun hc => absurd hc hw) (rank_le _)
+    exact ⟨List.replicate 23 (.net i), by simp, e⟩
+
+/-- From every state satisfying the invariant there is a schedule of at most 47 entries after
+which a given interrupted thread is dead. -/
+theorem can_terminate (env : List Beh) (s : Sys) (h : LInv s) (i : Nat)
+    (hb : (s.net i).pc ≠ .unborn) (hi : (s.net i).intr = true) :
+    ∃ sched, sched.length ≤ 47 ∧ ((run env s sched).net i).pc = .dead := by
+  cases ho : s.owner with
+  | none => 
+    obtain ⟨sched, h1, h2⟩ := can_terminate_free env s h i hb hi (Or.inl ho)
+    exact ⟨sched, by omega, h2⟩
+  | some t =>
+    by_cases ht : t = .net i
+    · obtain ⟨sched, h1, h2⟩ := can_terminate_free env s h i hb hi (Or.inr (by rw [ho, ht]))
+      exact ⟨sched, by omega, h2⟩
+    · obtain ⟨s1, hs1, ho1⟩ := owner_enabled env s h t ho
+      have h1 := step_inv env s s1 t h hs1
+      have hpc := pc_other env s s1 t h hs1 i hb ht
+      obtain ⟨sched, hl, hd⟩ := can_terminate_free env s1 h1 i (by rw [hpc]; exact hb)
+        (intr_sticky env s s1 t h hs1 i hb hi) (Or.inl ho1)
+      refine ⟨t :: sched, by simp; omega, ?_⟩
+      simp only [run, hs1]; exact hd
 
 end PyCraft.Life
